@@ -243,6 +243,69 @@ def api_oracle(res, rng):
     return nv
 
 
+def route_observations(res, rng):
+    """Gen/RouteObs.v: per (expression, braille code) the annotated tree of the routing search (hook) and the answer of
+    get_navigation_node_from_braille_position for every cell position"""
+    bodies = list(X.FIXED[:10]) + [X.gen(rng, 3, kinds=X.MORE_KINDS) for _ in range(8 if res.tier == "quick" else 80)]
+    bodies += ["<mrow><mi>A</mi><mi>B</mi><mi>C</mi><mi>D</mi><mi>E</mi></mrow>",
+               "<mrow><mtext>&#x65E5;&#x672C;&#x8A9E;&#x65E5;&#x672C;&#x8A9E;</mtext><mo>+</mo><mi>A</mi><mo>&#x2062;</mo><mi>B</mi><mo>&#x2264;</mo><mn>12345</mn></mrow>",
+               "<mrow><mi>&#x1F600;&#x1F600;</mi><mfrac><mi>A</mi><mi>B</mi></mfrac><msup><mi>Q</mi><mn>2</mn></msup><mi>x</mi></mrow>"]
+    sessions, meta = [], []
+    for b in bodies:
+        for code in (CODES if res.tier != "quick" else [rng.choice(CODES[:5]), rng.choice(CODES)]):
+            ops = [["set_rules_dir", C.RULES], ["set_preference", "BrailleCode", code], ["set_mathml", X.math(b)], ["get_braille", ""], ["v_route_dump", True],
+                   ["get_navigation_node_from_braille_position", 0], ["v_take_route_dump"], ["v_route_dump", False]]
+            sessions.append({"id": len(sessions), "ops": ops})
+            meta.append((b, code))
+    first = C.run_harness(sessions)
+    sessions2, meta2 = [], []
+    for (b, code), r in zip(meta, first):
+        rs = r.get("res") or []
+        if len(rs) != 8 or "ok" not in rs[3] or not isinstance(rs[6].get("ok"), dict):
+            continue
+        n = len(rs[3]["ok"])
+        d = rs[6]["ok"]
+        ops = [["set_rules_dir", C.RULES], ["set_preference", "BrailleCode", code], ["set_mathml", X.math(b)]]
+        positions = list(range(0, n + 2))
+        for p in positions:
+            ops.append(["get_navigation_node_from_braille_position", p])
+        sessions2.append({"id": len(sessions2), "ops": ops})
+        meta2.append((b, code, d, positions))
+    items, cases = [], []
+    for (b, code, d, positions), r in zip(meta2, C.run_harness(sessions2)):
+        rs = (r.get("res") or [])[3:]
+        if len(rs) != len(positions):
+            continue
+        nodes = d["nodes"]
+        idnum = {d["math"]: 0}
+        for k, nd in enumerate(nodes):
+            idnum.setdefault(nd[0], k + 1)
+        pos = [0]
+
+        def term():
+            i_, leaf, st, en, est, nk = nodes[pos[0]]
+            k = pos[0] + 1
+            pos[0] += 1
+            kids = [term() for _ in range(nk)]
+            return "(RT %d %s %d %d %d [%s])" % (k, "true" if leaf else "false", st, en, est, "; ".join(kids))
+        t = term()
+        answers = []
+        for p, x in zip(positions, rs):
+            if "ok" in x and x["ok"][0] in idnum:
+                answers.append("(%d, Some (%d, %d))" % (p, idnum[x["ok"][0]], x["ok"][1]))
+            else:
+                answers.append("(%d, None)" % p)
+        items.append("(%s, %d, [%s])" % (t, d["blen"], "; ".join(answers)))
+        cases.append((b, code, positions, rs))
+    body = HEADER + "From MC Require Import Lib.Base Model.Route.\nDefinition route_obs : list (rtree * N * list (N * option (N * N))) := " + clist(items, per_line=1) + ".\n"
+    C.write_if_changed(os.path.join(C.GEN, "RouteObs.v"), body)
+    res.extra["route_tie"] = {"expressions_x_codes": len(items), "positions": sum(len(c[2]) for c in cases),
+                              "errors": sum(1 for c in cases for x in c[3] if "ok" not in x)}
+    for b, code, positions, rs in cases:
+        res.add_case(("route-tie", code, b), nontrivial=len(positions) > 3)
+    return cases
+
+
 def with_ids(body, prefix):
     n = [0]
 
